@@ -578,7 +578,7 @@ func Scan(repo string) ([]Site, Stats, error) {
 					add("range-unresolved", short(v.X))
 				default:
 					if _, ok := t.Underlying().(*types.Map); ok {
-						add("map-range", short(v.X)+" : "+types.TypeString(t, qual))
+						add("map-range", short(v.X)+" : "+types.TypeString(t, qual)+keysOnly(x, v))
 					} else if tp, ok := t.(*types.TypeParam); ok {
 						add("range-unresolved", short(v.X)+" : type parameter "+tp.String())
 					}
@@ -672,6 +672,89 @@ func Scan(repo string) ([]Site, Stats, error) {
 		return a.Detail < b.Detail
 	})
 	return sites, st, nil
+}
+
+// keysOnly recognises the idiom that makes a map range harmless:
+//
+//	for k := range m { ks = append(ks, k) }   ...   sort.Strings(ks) / sort.Slice(ks, ..) / sort.Sort(T(ks))
+//
+// and returns a suffix for the site's detail saying so. The suffix names the sort call, so removing the
+// sort (or replacing the loop body) changes the site and the coverage obligation fails.
+func keysOnly(x *fn, v *ast.RangeStmt) string {
+	key, ok := v.Key.(*ast.Ident)
+	if !ok || key.Name == "_" {
+		return ""
+	}
+	if v.Value != nil {
+		if id, ok := v.Value.(*ast.Ident); !ok || id.Name != "_" {
+			return ""
+		}
+	}
+	if len(v.Body.List) != 1 {
+		return ""
+	}
+	as, ok := v.Body.List[0].(*ast.AssignStmt)
+	if !ok || len(as.Lhs) != 1 || len(as.Rhs) != 1 || as.Tok != token.ASSIGN {
+		return ""
+	}
+	dst, ok := as.Lhs[0].(*ast.Ident)
+	if !ok {
+		return ""
+	}
+	call, ok := as.Rhs[0].(*ast.CallExpr)
+	if !ok || len(call.Args) != 2 || call.Ellipsis.IsValid() {
+		return ""
+	}
+	if f, ok := call.Fun.(*ast.Ident); !ok || f.Name != "append" {
+		return ""
+	} else if _, isBuiltin := x.info.Uses[f].(*types.Builtin); !isBuiltin {
+		return ""
+	}
+	a0, ok0 := call.Args[0].(*ast.Ident)
+	a1, ok1 := call.Args[1].(*ast.Ident)
+	if !ok0 || !ok1 || a0.Name != dst.Name || x.info.Uses[a1] != x.info.Defs[key] || x.info.Defs[key] == nil {
+		return ""
+	}
+	dstObj := x.info.Uses[dst]
+	sorted := ""
+	ast.Inspect(x.body, func(n ast.Node) bool {
+		c, ok := n.(*ast.CallExpr)
+		if !ok || sorted != "" || c.Pos() < v.End() || len(c.Args) == 0 {
+			return true
+		}
+		sel, ok := c.Fun.(*ast.SelectorExpr)
+		if !ok {
+			return true
+		}
+		pk, ok := sel.X.(*ast.Ident)
+		if !ok {
+			return true
+		}
+		if pn, ok := x.info.Uses[pk].(*types.PkgName); !ok || pn.Imported().Path() != "sort" {
+			return true
+		}
+		switch sel.Sel.Name {
+		case "Strings", "Ints", "Float64s", "Slice", "SliceStable", "Sort", "Stable":
+		default:
+			return true
+		}
+		arg := c.Args[0]
+		for { // sort.Sort(sort.StringSlice(ks)): look through one conversion
+			if cc, ok := arg.(*ast.CallExpr); ok && len(cc.Args) == 1 {
+				arg = cc.Args[0]
+				continue
+			}
+			break
+		}
+		if id, ok := arg.(*ast.Ident); ok && x.info.Uses[id] == dstObj && dstObj != nil {
+			sorted = "sort." + sel.Sel.Name + "(" + dst.Name + ")"
+		}
+		return true
+	})
+	if sorted == "" {
+		return " => keys only, collected into " + dst.Name + ", NOT sorted"
+	}
+	return " => keys only, collected into " + dst.Name + ", then " + sorted
 }
 
 func coqStr(s string) string { return "\"" + strings.ReplaceAll(s, "\"", "\"\"") + "\"" }
